@@ -37,7 +37,8 @@ def c03_r1(ctx):
             continue
         found += 1
         uses_reuse = "reuse" in norm.names_in(val)
-        ctx.ob(f, not uses_reuse, norm.stmt_text(st),
+        how = norm.call_name(val) if isinstance(val, ast.Call) and val is getattr(st, "value", None) and isinstance(st, ast.Expr) else "assignment"
+        ctx.ob(f, not uses_reuse, "the `segments` argument is changed by %s without consulting `reuse`" % how,
                detail="segments that the new TOC does not list are carried over from the old reader "
                       "(merged-away segments are resurrected by refresh())" if uses_reuse else "",
                loc=ctx.nodeloc(f, st))
